@@ -928,7 +928,9 @@ class Stream:
                 else:
                     suspects.append((case, r, s))
             elif kind == "raises":
-                if s["verdict"] == "ok":
+                if documented_refusal(case, r["verdict"]):
+                    refusals[f"{case['fam']}:{key_of(case)}"] = r["verdict"][:120] + " | documented refusal; stock: " + s["verdict"][:60]
+                elif s["verdict"] == "ok":
                     suspects.append((case, r, s))
                 else:
                     refusals[f"{case['fam']}:{key_of(case)}"] = r["verdict"][:120] + " | stock: " + s["verdict"][:60]
@@ -1014,6 +1016,13 @@ def signature(case, verdict):
     return f"C26:{kind}:{case['fam']}:{key_of(case)}{sub}"
 
 
+def documented_refusal(case, verdict):
+    """dask_array.pad refuses reflect_type='odd' with NotImplementedError (reached since /repo f2b338a); the stock manager has
+    the keyword typo and silently returns the EVEN reflection, which coincides with NumPy only when the padded cells are NaN"""
+    return ("NotImplementedError" in verdict and case.get("op") == "pad"
+            and ((case.get("p") or {}).get("kw") or {}).get("reflect_type") == "odd")
+
+
 def judge_single(env, case):
     """→ verdict of the registered run if it is a failure of the property, else None (one fresh interpreter per mode)."""
     r = run_child("registered", [case], env)[0]
@@ -1026,6 +1035,8 @@ def judge_single(env, case):
     if v.startswith("mismatch") or v.startswith("compare-error"):
         return v
     if v.startswith("raises"):
+        if documented_refusal(case, v):
+            return None
         s = run_child("stock", [case], env)[0]
         if s["verdict"] == "ok":
             return v + " (the stock dask manager computes it)"
